@@ -129,6 +129,35 @@ def dict_in_function(fi: FuncInfo, var: str) -> Optional[Dict[str, str]]:
     return None
 
 
+def dict_by_key(fi: FuncInfo, key_text: str) -> Optional[Tuple[Dict[str, str], str]]:
+    """The table subscripted with `key_text` in fi (`<table>[<key>]`): a dict literal in place, or a local / module-level
+    name bound to one.  Returns ({unparsed key: unparsed value}, text of the table expression as written).
+    Found by role, not by the table's name: where the literal lives (local, hoisted constant) does not matter."""
+    from ..core import Repo as _R  # noqa
+
+    for n in au.walk_no_nested(fi.node):
+        if isinstance(n, ast.Subscript) and isinstance(n.ctx, ast.Load) and ast.unparse(n.slice) == key_text:
+            tbl = n.value
+            lit = None
+            if isinstance(tbl, ast.Dict):
+                lit = tbl
+            elif isinstance(tbl, ast.Name):
+                for st in au.stmts(fi.node):
+                    if isinstance(st, ast.Assign) and len(st.targets) == 1 and isinstance(st.targets[0], ast.Name) and st.targets[0].id == tbl.id and isinstance(st.value, ast.Dict):
+                        lit = st.value
+                if lit is None:
+                    for st in fi.file.tree.body:
+                        if isinstance(st, (ast.Assign, ast.AnnAssign)):
+                            tg = st.targets[0] if isinstance(st, ast.Assign) else st.target
+                            if isinstance(tg, ast.Name) and tg.id == tbl.id and isinstance(st.value, ast.Dict):
+                                lit = st.value
+            if lit is not None:
+                d = au.dict_literal(lit)
+                if d is not None:
+                    return {_k(k): _k(v) for k, v in d}, ast.unparse(tbl)
+    return None
+
+
 def _k(e: ast.AST) -> str:
     if isinstance(e, ast.Constant):
         return str(e.value)
